@@ -2142,7 +2142,12 @@ class StateEngine(object):
                         throw_exception_on_failed_match=True
                     )
                 except PathMatchFailure:
-                    variable = False
+                    """
+                    Use a value that is not a JSON value so that a missing
+                    Variable never matches a value comparison (False would
+                    match BooleanEquals: false).
+                    """
+                    variable = PathMatchFailure
                     path_match_failed = True
 
                 next = choice.get("Next", True)
